@@ -41,7 +41,17 @@ func main() {
 			pmlib.DemandSpec{Static: true, Blocking: true, Source: true, Describe: true}, 2, 3),
 		mk("odstatic-blocking-close-while-held", "same source: manager shut down while R1+D1 are on hold and the source becomes ready", nil,
 			pmlib.DemandSpec{Static: true, Blocking: true, Source: true, Describe: true, Close: true}, 2, 3),
+		mk("odstatic-failing-served-then-late", "on-demand static source whose protocol client FAILS after serving (reports not-ready from its own Run, returns an error; the handler retries after its pause): late reader R2", nil,
+			pmlib.DemandSpec{Static: true, Blocking: true, Fails: true, Source: true, SourceGoes: true, Describe: true, Late: true}, 1, 2),
+		mk("odpub-served-then-late-early", "on-demand publisher serves and leaves; the late reader R2 requests while the kicked reader is still detaching", nil,
+			pmlib.DemandSpec{Source: true, SourceGoes: true, Describe: true, Late: true, LateEarly: true}, 2, 3),
+		mk("odstatic-served-then-late-early", "the same with an on-demand static source", nil,
+			pmlib.DemandSpec{Static: true, Blocking: true, Source: true, SourceGoes: true, Describe: true, Late: true, LateEarly: true}, 2, 3),
 	}
+	// the handler's retry pause is part of this scenario: its timer is NOT background here
+	scn = append(scn, &vexplore.Scenario{Name: "odstatic-first-attempt-fails", Desc: "on-demand static source whose first connection attempt fails at once; the handler retries after its pause and that attempt keeps running; nobody becomes ready: start timeout, then a late reader",
+		Body: pmlib.DemandBody(stConf, pmlib.DemandSpec{Static: true, Blocking: true, FailFirst: true, Describe: true, Late: true}), Check: pmlib.CheckDemand,
+		QuickBound: 2, ThoroughBound: 3, Horizon: 20000, Bg: bg})
 	vexplore.Main("C19", scn, []string{
 		"timers (start timeout, close-after) are scheduler transitions on a virtual clock; the static source handler's retry timer is background",
 		"runOnDemand runs as a fake process (exec rewrite in internal/externalcmd): start/kill are observed, nothing is spawned",
